@@ -338,6 +338,10 @@ pub struct BlockRec {
     /// number of transactions the indexer was told were appended
     pub tx_count: u64,
     pub state_changing: bool,
+    /// receipts returned to the indexer for this block, in order, with the inscription id of the call
+    pub receipts: Vec<(Value, String)>,
+    /// block created by brc20_initialise (its deployment receipt is not returned to the indexer)
+    pub is_init: bool,
 }
 
 #[derive(Clone, Debug, Default)]
@@ -400,6 +404,7 @@ pub struct OpenBlock {
     pub count: u64,
     pub reqs: Vec<Req>,
     pub state_changing: bool,
+    pub receipts: Vec<(Value, String)>,
 }
 
 #[derive(Clone, Debug)]
@@ -440,6 +445,8 @@ pub struct Runner {
     pub events: Vec<Event>,
     pub stats: Stats,
     pub init_req: Option<Req>,
+    /// keccak(raw signed tx) -> inscription id it was submitted with (drained txs keep their own)
+    pub signed_insc: std::collections::HashMap<String, String>,
     seq: u64,
     cur_op: usize,
     /// set when the harness's own bookkeeping noticed something impossible (reported by checks)
@@ -482,6 +489,7 @@ impl Runner {
             events: vec![],
             stats: Stats::default(),
             init_req: None,
+            signed_insc: std::collections::HashMap::new(),
             seq: 0,
             cur_op: 0,
             anomalies: vec![],
@@ -525,7 +533,7 @@ impl Runner {
             return (o.hash_param, o.ts);
         }
         let h = self.resolve_hash(&blk.hash);
-        self.open = Some(OpenBlock { hash_param: h, ts: blk.ts, count: 0, reqs: vec![], state_changing: false });
+        self.open = Some(OpenBlock { hash_param: h, ts: blk.ts, count: 0, reqs: vec![], state_changing: false, receipts: vec![] });
         (h, blk.ts)
     }
 
@@ -599,6 +607,10 @@ impl Runner {
                 }
                 let o = self.open.as_mut().unwrap();
                 o.count += receipts.len() as u64;
+                for r in &receipts {
+                    let own = r.get("transactionHash").and_then(|h| h.as_str()).and_then(|h| self.signed_insc.get(h)).cloned();
+                    o.receipts.push((r.clone(), own.unwrap_or_else(|| insc.clone())));
+                }
                 o.reqs.push(Req::with(method, params, &resp));
                 o.state_changing = true;
             }
@@ -647,6 +659,7 @@ impl Runner {
             let mut reqs = o.reqs.clone();
             reqs.push(Req::with("brc20_finaliseBlock", params, &resp));
             self.push_block(reqs, o.count, o.state_changing);
+            self.model.blocks.last_mut().unwrap().receipts = o.receipts.clone();
             self.open = None;
         } else {
             self.anomalies.push(format!("finalise of a conformant block failed: {:?}", resp));
@@ -666,7 +679,7 @@ impl Runner {
         if let Some(h) = hash {
             self.uni.block_hashes.insert(b256_hex(h));
         }
-        self.model.blocks.push(BlockRec { reqs, hash, tx_count, state_changing });
+        self.model.blocks.push(BlockRec { reqs, hash, tx_count, state_changing, receipts: vec![], is_init: false });
         self.model.hef = Some(self.model.hef.map_or(height, |m| m.max(height)));
         self.uni.max_height = self.uni.max_height.max(height);
         self.stats.blocks += 1;
@@ -727,6 +740,7 @@ impl Runner {
                     let req = Req::new("brc20_initialise", params);
                     self.init_req = Some(req.clone());
                     self.push_block(vec![req], 1, true);
+                    self.model.blocks.last_mut().unwrap().is_init = true;
                     // the controller deployment's receipt is not returned; learn its hash
                     if let Resp::Ok(b) = self.inst.call("eth_getBlockByNumber", json!(["0", false])) {
                         if let Some(txs) = b.get("transactions").and_then(|t| t.as_array()) {
@@ -770,10 +784,10 @@ impl Runner {
             }
             Op::Call { from, target, by_insc, sel, arg, len, blk, b64 } => {
                 let data = evm::calldata(*sel, evm::const_val(*arg));
-                self.call_op(*from, *target, *by_insc, &data, len, blk, *b64);
+                self.call_op(*from, *target, *by_insc, &data, len, blk, *b64, false);
             }
             Op::RawCall { from, target, data, len, blk } => {
-                self.call_op(*from, *target, false, data, len, blk, false);
+                self.call_op(*from, *target, false, data, len, blk, false, true);
             }
             Op::Transact { signer: s, nonce, payload, len, blk, b64, txid: _ } => {
                 let acct = self.account_nonce(signer_addr(*s));
@@ -789,6 +803,7 @@ impl Runner {
                 let txid = self.txid_param();
                 p.insert("op_return_tx_id".into(), json!(txid));
                 let insc = self.fresh_insc();
+                self.signed_insc.insert(b256_hex(keccak256(&raw)), insc.clone());
                 self.tx_request("brc20_transact", p, blk, insc, is_create);
             }
             Op::Deposit { to, tick, amt, blk } => {
@@ -879,14 +894,18 @@ impl Runner {
         r
     }
 
-    fn call_op(&mut self, from: u8, target: u16, by_insc: bool, data: &[u8], len: &Len, blk: &Blk, b64: bool) {
+    fn call_op(&mut self, from: u8, target: u16, by_insc: bool, data: &[u8], len: &Len, blk: &Blk, b64: bool, raw: bool) {
         let mut p = serde_json::Map::new();
         p.insert("from_pkscript".into(), json!(PKSCRIPTS[from as usize % PKSCRIPTS.len()]));
         if by_insc && !self.contract_inscs.is_empty() {
             let i = evm::pick(&(0..self.contract_inscs.len()).collect::<Vec<_>>(), target).unwrap();
             p.insert("contract_inscription_id".into(), json!(self.contract_inscs[i]));
         } else {
-            let to = evm::pick(&self.contracts, target).unwrap_or_else(|| evm::eoa(3));
+            let to = if raw && target >= 0xF000 {
+                Address::ZERO // a call to the zero address (1/16 of the raw calls)
+            } else {
+                evm::pick(&self.contracts, target).unwrap_or_else(|| evm::eoa(3))
+            };
             p.insert("contract_address".into(), json!(addr_hex(to)));
         }
         Self::data_params(&mut p, data, b64, "data", "base64_data");
